@@ -208,4 +208,43 @@ theorem C22_reconfigured_never_pays {σ : Type} (s : Spec) (optimism : Bool) (op
   subst hs
   exact ⟨hx.symm, h4⟩
 
+/-! ### the whole-transaction model used by the correspondence stream -/
+
+/-- on a handler with rewards disabled the modelled transaction returns exactly what execution and
+reimbursement produced -/
+theorem transact_disabled (h : Handler) (db : Db) (tx : Tx) (h0 : h.reward = none)
+    (res : TxResult) (used : Nat) (st : JState)
+    (hb : beforeReward h.spec h.optHandles db tx = .ok (res, used, st)) :
+    transact h db tx = (res, used, st) := by
+  unfold transact; rw [hb, h0]; rfl
+
+/-- the twin (same cfg and handles, rewards enabled) returns the same result, the same gas and the same
+state of every account that is not one of its fee recipients; a rejected transaction is rejected by
+both. This is the `same=1` column of the stream. -/
+theorem transact_twin (h t : Handler) (db : Db) (tx : Tx) (h0 : h.reward = none)
+    (hs : t.spec = h.spec) (ho : t.optHandles = h.optHandles) :
+    (∀ e, beforeReward h.spec h.optHandles db tx = .error e →
+        transact h db tx = (.err e, 0, fun _ => none) ∧ transact t db tx = (.err e, 0, fun _ => none)) ∧
+    (∀ res used st st', beforeReward h.spec h.optHandles db tx = .ok (res, used, st) →
+        rewardStage t.reward db (tx.feeEnv t) used st = some st' →
+        transact h db tx = (res, used, st) ∧ transact t db tx = (res, used, st') ∧
+        ∀ a, a ∉ feeRecipients (tx.feeEnv t) t.reward → st' a = st a) := by
+  refine ⟨?_, ?_⟩
+  · intro e he
+    refine ⟨by unfold transact; rw [he], by unfold transact; rw [hs, ho, he]⟩
+  · intro res used st st' hb hr
+    refine ⟨transact_disabled h db tx h0 res used st hb, ?_, ?_⟩
+    · unfold transact; rw [hs, ho, hb]; simp only; rw [hr]
+    · exact fun a ha => rewardStage_other _ db _ used st st' hr a ha
+
+/-- non-vacuity: a London transfer (basefee 20, tip 10) on a disabled, reconfigured handler passes
+validation and leaves the coinbase absent, while the enabled twin pays it `tip * 21000` -/
+def exampleDb : Db := fun a => if a = CALLER then ⟨1000000000, 0, false⟩ else ⟨7, 0, false⟩
+def exampleTx : Tx := ⟨.xfer, 100000, 30, none, 20, 1, 21000, none⟩
+example : (transact (run (mainnetWithSpec .CANCUN false) [.modifySpecId .LONDON]) exampleDb exampleTx).1 = .ok := by rfl
+example : (transact (run (mainnetWithSpec .CANCUN false) [.modifySpecId .LONDON]) exampleDb exampleTx).2.2 COINBASE = none := by
+  rfl
+example : (transact (run (mainnetWithSpec .CANCUN true) [.modifySpecId .LONDON]) exampleDb exampleTx).2.2 COINBASE
+    = some ⟨7 + 10 * 21000, 0, true⟩ := by rfl
+
 end Revm.Props.C22
